@@ -122,8 +122,8 @@ pub(super) fn load_styles<R: Read + std::io::Seek>(
     let mut fonts = Vec::new();
     let font_nodes = style_sheet
         .children()
-        .filter(|n| n.has_tag_name("fonts"))
-        .collect::<Vec<Node>>()[0];
+        .find(|n| n.has_tag_name("fonts"))
+        .ok_or_else(|| XlsxError::Xml("Missing fonts element in xl/styles.xml".to_string()))?;
     for font in font_nodes.children() {
         let mut sz = 11;
         let mut name = "Inter".to_string();
@@ -208,8 +208,8 @@ pub(super) fn load_styles<R: Read + std::io::Seek>(
     let mut fills = Vec::new();
     let fill_nodes = style_sheet
         .children()
-        .filter(|n| n.has_tag_name("fills"))
-        .collect::<Vec<Node>>()[0];
+        .find(|n| n.has_tag_name("fills"))
+        .ok_or_else(|| XlsxError::Xml("Missing fills element in xl/styles.xml".to_string()))?;
     for fill in fill_nodes.children() {
         let pattern_fill = fill
             .children()
@@ -252,8 +252,8 @@ pub(super) fn load_styles<R: Read + std::io::Seek>(
     let mut borders = Vec::new();
     let border_nodes = style_sheet
         .children()
-        .filter(|n| n.has_tag_name("borders"))
-        .collect::<Vec<Node>>()[0];
+        .find(|n| n.has_tag_name("borders"))
+        .ok_or_else(|| XlsxError::Xml("Missing borders element in xl/styles.xml".to_string()))?;
     for border in border_nodes.children() {
         let diagonal_up = get_bool_false(border, "diagonal_up");
         let diagonal_down = get_bool_false(border, "diagonal_down");
@@ -276,8 +276,8 @@ pub(super) fn load_styles<R: Read + std::io::Seek>(
     let mut cell_style_xfs = Vec::new();
     let cell_style_xfs_nodes = style_sheet
         .children()
-        .filter(|n| n.has_tag_name("cellStyleXfs"))
-        .collect::<Vec<Node>>()[0];
+        .find(|n| n.has_tag_name("cellStyleXfs"))
+        .ok_or_else(|| XlsxError::Xml("Missing cellStyleXfs element in xl/styles.xml".to_string()))?;
     for xfs in cell_style_xfs_nodes.children() {
         let num_fmt_id = get_number(xfs, "numFmtId");
         let font_id = get_number(xfs, "fontId");
@@ -308,8 +308,8 @@ pub(super) fn load_styles<R: Read + std::io::Seek>(
     let mut style_names = HashMap::new();
     let cell_style_nodes = style_sheet
         .children()
-        .filter(|n| n.has_tag_name("cellStyles"))
-        .collect::<Vec<Node>>()[0];
+        .find(|n| n.has_tag_name("cellStyles"))
+        .ok_or_else(|| XlsxError::Xml("Missing cellStyles element in xl/styles.xml".to_string()))?;
     for cell_style in cell_style_nodes.children() {
         let name = get_attribute(&cell_style, "name")?.to_string();
         let xf_id = get_number(cell_style, "xfId");
@@ -331,8 +331,8 @@ pub(super) fn load_styles<R: Read + std::io::Seek>(
     let mut cell_xfs = Vec::new();
     let cell_xfs_nodes = style_sheet
         .children()
-        .filter(|n| n.has_tag_name("cellXfs"))
-        .collect::<Vec<Node>>()[0];
+        .find(|n| n.has_tag_name("cellXfs"))
+        .ok_or_else(|| XlsxError::Xml("Missing cellXfs element in xl/styles.xml".to_string()))?;
     for xfs in cell_xfs_nodes.children() {
         // `xfId` is optional on a cellXfs <xf> (it references cellStyleXfs;
         // many Excel/LibreOffice files omit it). Default to 0 when absent.
